@@ -161,9 +161,9 @@ def jobs(tier: str, seed: int) -> list[dict]:
     out.append(dict(name='division/n2/2-starting-boards/symbolic-strengths', module='harness.c02', fn='h_showdown',
                     params=dict(n=2, depth=0, shape='allin', boards=2, levels=2), budget_s=B,
                     must_cover=['showdown']))
-    out.append(dict(name='division/n3/2-starting-boards/symbolic-strengths', module='harness.c02', fn='h_showdown',
+    out.append(dict(name='division/n3/2-starting-boards/symbolic-strengths/equal-stacks', module='harness.c02', fn='h_showdown',
                     params=dict(n=3, depth=0, shape='allin', boards=2, levels=2,
-                                part=['s0<=s1', 's1<=s2']), budget_s=max(B, 450),
+                                part=['s0==s1', 's1==s2']), budget_s=max(B, 450),
                     must_cover=['showdown'], prio=9))
     if tier == 'thorough':
         for street in ('preflop', 'flop', 'turn'):
